@@ -28,7 +28,40 @@ def fr(x):
 
 
 def il(x, n):
-    return [sorted(int(i) for i in x.indices[x.indexptr[k]:x.indexptr[k + 1]]) for k in range(n)]
+    """Rows of an IndexList(indices, indexptr); rows the (too short) indexptr does not describe are left out, so a
+    wrong-length table shows up as a wrong number of rows instead of an IndexError in the harness."""
+    m = min(n, len(x.indexptr) - 1)
+    return [sorted(int(i) for i in x.indices[x.indexptr[k]:x.indexptr[k + 1]]) for k in range(m)]
+
+
+def layout_problems(g):
+    """Length checks of every table of a Grid (a valid grid must have one entry / row per entity)."""
+    ne, nv, nel = g.number_of_edges, g.number_of_vertices, g.number_of_elements
+    bad = []
+    for name, got, want in (
+            ("vertex_neighbors", len(g.vertex_neighbors.indexptr), nv + 1),
+            ("element_neighbors", len(g.element_neighbors.indexptr), nel + 1),
+            ("vertex_on_boundary", len(g.vertex_on_boundary), nv), ("edge_on_boundary", len(g.edge_on_boundary), ne),
+            ("edge_neighbors", len(g.edge_neighbors), ne), ("element_edges", g.element_edges.shape[1], nel),
+            ("edges", g.edges.shape[1] if g.edges.ndim == 2 else -1, ne),
+            ("normals", len(g.normals), nel), ("volumes", len(g.volumes), nel), ("centroids", len(g.centroids), nel),
+            ("diameters", len(g.diameters), nel), ("integration_elements", len(g.integration_elements), nel),
+            ("jacobians", len(g.jacobians), nel), ("jacobian_inverse_transposed", len(g.jacobian_inverse_transposed), nel),
+            ("domain_indices", len(g.domain_indices), nel)):
+        if got != want:
+            bad.append((name, got, want))
+    for name, x in (("vertex_neighbors", g.vertex_neighbors), ("element_neighbors", g.element_neighbors)):
+        ip = np.asarray(x.indexptr)
+        if len(ip) and (ip[0] != 0 or ip[-1] != len(x.indices) or np.any(np.diff(ip.astype(np.int64)) < 0)):
+            bad.append((name + ".indexptr", "not a partition of indices", ""))
+    return bad
+
+
+def report_layout(g, els, nv, fails, where):
+    for name, got, want in layout_problems(g):
+        fails.append({"signature": "Grid.%s:wrong-length" % name.split(".")[0],
+                      "what": "%s has length %s, expected %s (%s)" % (name, got, want, where),
+                      "data": {"els": els, "nv": nv}})
 
 
 def tables(g):
@@ -122,6 +155,21 @@ def topo_cases(rng, thorough):
         e = np.array(els, dtype="int64").T
         dt = [("uint32", "float64"), ("int64", "float64"), ("uint32", "float32"), ("int32", "float64")][k % 4]
         cases.append({"tag": "soup%d" % style, "v": general_coords(nv, rng), "e": e, "dt": dt})
+    # unused vertices at the front, in the middle and at the end of the vertex array; Grid(all vertices, some elements)
+    for k in range(24 if thorough else 12):
+        m = int(rng.integers(1, 6))
+        used = int(rng.integers(3, 7))
+        pads = [(2, 0, 0), (0, 0, 2), (0, 2, 0), (1, 1, 1), (0, 0, 1), (3, 0, 3)][k % 6]     # front, middle, end
+        els = [list(rng.choice(used, 3, replace=False)) for _ in range(m)]
+        mid = used // 2
+        remap = [i + pads[0] + (pads[1] if i >= mid else 0) for i in range(used)]
+        e = np.array([[remap[x] for x in t] for t in els], dtype="int64").T
+        nv = used + sum(pads)
+        cases.append({"tag": "unused%d%d%d" % pads, "v": general_coords(nv, rng), "e": e, "dt": ("uint32", "float64")})
+    v0, e0 = M.sphere(1)
+    for k in range(4 if thorough else 2):
+        keep = sorted(rng.choice(e0.shape[1], int(rng.integers(1, 7)), replace=False))
+        cases.append({"tag": "sphere-subset", "v": v0, "e": e0[:, keep].copy(), "dt": ("uint32", "float64")})
     # malformed stream: repeated vertex in an element, out-of-range index, no elements
     nbad = 120 if thorough else 40
     for k in range(nbad):
@@ -158,9 +206,19 @@ def run_topo(rng, thorough, out):
         e = np.asarray(c["e"]).astype(c["dt"][0])
         g, kind, name = try_grid(v, e)
         nv = int(v.shape[1])
-        rec = {"tag": c["tag"], "els": [[int(x) for x in col] for col in e.T], "nv": nv, "kind": kind, "exc": name,
-               "tables": tables(g) if g is not None else None}
+        els_l = [[int(x) for x in col] for col in e.T]
+        tb = None
         if g is not None:
+            try:
+                tb = tables(g)
+            except Exception as ex:
+                out["failures"].append({"signature": "Grid.tables:raises-on-valid-input",
+                                        "what": "reading the topology tables raised %s (%s)" % (type(ex).__name__, c["tag"]),
+                                        "data": {"els": els_l, "nv": nv}})
+                continue
+        rec = {"tag": c["tag"], "els": els_l, "nv": nv, "kind": kind, "exc": name, "tables": tb}
+        if g is not None:
+            report_layout(g, rec["els"], nv, out["failures"], c["tag"])
             # normalisation of the inputs is part of the observable contract
             if g.elements.dtype != np.uint32 or g.vertices.dtype != np.float64 or not g.elements.flags.f_contiguous:
                 out["failures"].append({"signature": "Grid.__init__:input-not-normalised",
@@ -321,6 +379,12 @@ def check_grid_relations(g, name, fails, counter):
     def bad(sig, what, **data):
         fails.append({"signature": sig, "what": "%s on %s" % (what, name), "data": dict(mesh=name, **data)})
     EL = [(0, 1), (2, 0), (1, 2)]
+    lp = layout_problems(g)
+    for nm, got, want in lp:
+        bad("Grid.%s:wrong-length" % nm.split(".")[0], "%s has length %s, expected %s" % (nm, got, want),
+            els=[[int(x) for x in c] for c in e.T], nv=int(nv))
+    if lp:
+        return
     # edges: every undirected edge once, sorted, element_edges consistent
     edges = g.edges.astype(np.int64)
     counter[0] += 1
@@ -658,6 +722,18 @@ def run_search(rng, thorough, out):
     vv = np.hstack([v, flap[:, 4:]])
     ee = np.hstack([e.astype(np.int64), remap[e_flap]])
     meshes.append(("T-junction", (vv, ee.astype("uint32"))))
+    # unused vertices at the front, in the middle and at the end; a few elements over a full vertex array
+    v, e = M.screen(3)
+    pad = rng.uniform(5, 6, size=(3, 2))
+    nvs = v.shape[1]
+    vpad = np.hstack([pad, v[:, :nvs // 2], pad + 1, v[:, nvs // 2:], pad + 2])
+    ei = e.astype(np.int64)
+    epad = np.where(ei < nvs // 2, ei + 2, ei + 4)
+    meshes.append(("screen3+unused-vertices-front-middle-end", (vpad, epad.astype("uint32"))))
+    v, e = M.sphere(2)
+    meshes.append(("sphere2-first-20-elements-over-all-vertices", (v, e[:, :20].copy())))
+    v, e = M.octahedron()
+    meshes.append(("octahedron-top-half-last-vertex-unused", (v, e[:, :4].copy())))
     reps = 3 if thorough else 1
     for name, (v, e) in meshes:
         for r in range(reps):
@@ -719,16 +795,30 @@ def main():
     parts = cfg.get("parts") or ["topo", "geom", "derived", "search"]
     rng = np.random.default_rng(int(os.environ.get("VERIF_SEED", "0")))
     out = {"failures": [], "search_evals": 0}
+    def guarded(name, fn, *a):
+        """No entry point may crash: an exception coming out of the library on valid input is a failing input, an
+        exception of the harness itself is reported to the driver as a harness error."""
+        import traceback
+        try:
+            fn(*a)
+        except Exception as ex:
+            tb = traceback.format_exc()
+            in_lib = "bempp_cl" in tb.split("c11_impl.py")[-1]
+            if in_lib:
+                out["failures"].append({"signature": "Grid:raises-on-valid-input",
+                                        "what": "%s in part %s: %s" % (type(ex).__name__, name, tb[-500:]), "data": {"part": name}})
+            else:
+                out.setdefault("errors", []).append("part %s: %s" % (name, tb[-800:]))
     if "topo" in parts:
-        run_topo(rng, thorough, out)
+        guarded("topo", run_topo, rng, thorough, out)
     if "geom" in parts:
-        run_geom(rng, thorough, out)
+        guarded("geom", run_geom, rng, thorough, out)
     if "derived" in parts:
-        run_derived(rng, thorough, out)
+        guarded("derived", run_derived, rng, thorough, out)
     if "search" in parts:
-        run_search(rng, thorough, out)
+        guarded("search", run_search, rng, thorough, out)
     if "recheck" in parts:
-        recheck_cases(cfg, rng, out)
+        guarded("recheck", recheck_cases, cfg, rng, out)
     if "recheck" in parts:
         # the relations of the search on explicitly given element lists (replays, correspondence disagreements)
         counter = [0]
@@ -739,8 +829,13 @@ def main():
             if g is None:
                 continue
             dup = len({frozenset(c) for c in gi["els"]}) != len(gi["els"]) or any(len(set(c)) < 3 for c in gi["els"])
-            if not dup:
-                check_grid_relations(g, "replayed element list %s" % gi["els"], out["failures"], counter)
+            report_layout(g, gi["els"], nv, out["failures"], "replayed element list")
+            if not dup and not layout_problems(g):
+                try:
+                    check_grid_relations(g, "replayed element list %s" % gi["els"], out["failures"], counter)
+                except Exception as ex:
+                    out["failures"].append({"signature": "Grid:raises-on-valid-input", "what": "%s on replayed element list" %
+                                            type(ex).__name__, "data": {"els": gi["els"], "nv": nv}})
                 for f in out["failures"]:
                     f["data"]["els"] = gi["els"]
                     f["data"]["nv"] = nv
